@@ -124,7 +124,7 @@ class Exec:
 
     def __init__(self, prefix=(), policy="rtb", start=1_700_000_000.0, horizon=300.0,
                  max_steps=400_000, timer_choices=False, line_files=None, expect=None,
-                 random_value=0.5, chooser=None, tick0=0, grace=0.0, stall_menu=None, stall_threads=None):
+                 random_value=0.5, chooser=None, tick0=0, grace=0.0, stall_menu=None, stall_threads=None, stall_ops=None):
         Exec.epoch_counter += 1
         self.epoch = Exec.epoch_counter
         self.threads: list[VT] = []
@@ -136,6 +136,8 @@ class Exec:
         self.policy = policy
         self.stall_menu = list(stall_menu or [])
         self.stall_threads = tuple(stall_threads) if stall_threads else None   # name prefixes; None = every thread
+        self.stall_ops = set(stall_ops) if stall_ops else None   # operation classes ('signal', 'wait', ...); None = every point
+        self._cur_op = None
         self.steps = 0
         self.max_steps = max_steps
         self.killed = False
@@ -320,7 +322,8 @@ class Exec:
                 timer_t = min(timed, key=lambda x: (x.deadline, x.id))
                 codes.append(-(timer_t.id + 1))
         if self.stall_menu and me is not None and me.state == RUN and me in en and (
-                self.stall_threads is None or me.name.startswith(self.stall_threads)):
+                self.stall_threads is None or me.name.startswith(self.stall_threads)) and (
+                self.stall_ops is None or self._cur_op in self.stall_ops):
             # the running thread loses the CPU for a while at this point (everything else goes on)
             codes.extend(STALL_BASE + k for k in range(len(self.stall_menu)))
         if len(codes) == 1:
@@ -353,11 +356,12 @@ class Exec:
         if self.killed:
             raise Killed()
 
-    def point(self):
-        """A scheduling point before a visible operation."""
+    def point(self, op=None):
+        """A scheduling point before a visible operation (`op`: its class, e.g. 'signal' or 'wait')."""
         if self.killed:
             raise Killed()
         me = self.me()
+        self._cur_op = op
         try:
             nxt = self._pick(me)
         except InternalError as e:
